@@ -86,6 +86,43 @@ def profile(**over):
     return p
 
 
+# ---------------------------------------------------------------------------
+# line granularity (threaded server / threaded client only)
+# ---------------------------------------------------------------------------
+# functions of the threaded code paths that read or write state shared between
+# threads; a run in line mode pre-empts only inside one to three of them
+LINE_SERVER = ['close', 'send', 'receive', 'poll', 'handle_get_request',
+               'handle_post_request', '_websocket_handler', 'writer',
+               'websocket_wait', 'check_ping_timeout', '_send_ping',
+               'schedule_ping', 'disconnect', '_handle_connect',
+               '_service_task', '_trigger_event', 'run_handler',
+               '_get_socket', '_upgrade_websocket', 'handle_request',
+               'send_packet', 'transport', 'get_session', 'save_session']
+LINE_CLIENT = ['_write_loop', '_read_loop_polling', '_read_loop_websocket',
+               '_receive_packet', '_send_packet', 'send', 'disconnect',
+               '_reset', 'connect', '_connect_polling', '_connect_websocket',
+               '_trigger_event', 'run_handler', 'wait', '_send_request']
+
+
+def line_decorate(rng, plan, hot=None, pool=None):
+    """Turn ``plan`` into a line-granularity run (kernel.enable_lines)."""
+    pool = pool or LINE_SERVER
+    r = rng.random()
+    if r < 0.6 and hot:
+        spec = {'mean': rng.choice([1, 1, 2]), 'focus': [rng.choice(hot)]}
+    elif r < 0.9:
+        spec = {'mean': rng.choice([1, 2, 4]),
+                'focus': sorted(rng.sample(pool, rng.choice([1, 2, 3])))}
+    else:
+        spec = {'mean': rng.choice([4, 8, 16]), 'focus': None}
+    spec['max'] = rng.choice([16, 64, 1000])
+    plan['line'] = spec
+    fl = rng.choice([None, 0, 0, 0, 1])
+    if fl is not None:
+        plan['fixed_latency'] = fl
+    return plan
+
+
 SABOTAGE = [
     [['send', '2nope'], ['delay', 4]],
     [['send', '4hello'], ['delay', 4]],
@@ -394,3 +431,24 @@ def add_raw_requests(rng, plan, per_session=(1, 5), span=6.0,
             raws.append(raw_request(rng, t, malformed))
         s['raw'] = sorted(raws, key=lambda r: r['t'])
     return plan
+
+
+def with_lines(gen, hot=None, p=0.25):
+    """Wrap a plan generator: a share ``p`` of the plans that involve threaded
+    code of the package run at line granularity."""
+    def g(rng, tier, i):
+        plan = gen(rng, tier, i)
+        cl = plan.get('client') if isinstance(plan.get('client'), dict) \
+            else None
+        srv = plan.get('server', 'threaded' if cl is None else None)
+        pool = []
+        if srv == 'threaded':
+            pool += LINE_SERVER
+        if cl is not None and cl.get('kind', 'threaded') == 'threaded':
+            pool += LINE_CLIENT
+        if pool and rng.random() < p:
+            line_decorate(rng, plan, [x for x in (hot or []) if x in pool],
+                          sorted(set(pool)))
+        return plan
+    g.lines = True
+    return g
